@@ -33,9 +33,11 @@ def find_func(prog, name):
 def tier_params(tier):
     if tier == "thorough":
         return {"query_ms": 120000, "func_budget_s": 900, "feas_ms": 20000, "explore_s": 300,
-                "reach_ms": 20000, "max_boundary": 40, "max_depth": 10}
+                "reach_ms": 20000, "max_boundary": 40, "max_depth": 10,
+                "max_array_len": 3}
     return {"query_ms": 12000, "func_budget_s": 60, "feas_ms": 3000, "explore_s": 25,
-            "reach_ms": 4000, "max_boundary": 6, "max_depth": 5}
+            "reach_ms": 4000, "max_boundary": 6, "max_depth": 5,
+            "max_array_len": 2}
 
 
 def base_out(fname, f):
@@ -63,7 +65,7 @@ class wrap:
 
 
 def explore(prog, f, honest, tp, out):
-    fa = FuncAnalysis(prog, f, honest=honest,
+    fa = FuncAnalysis(prog, f, honest=honest, max_array_len=tp["max_array_len"],
                       limits=Limits(solver_ms=tp["feas_ms"], explore_s=tp["explore_s"],
                                     max_depth=tp["max_depth"])).explore()
     if fa.unsupported:
@@ -555,7 +557,7 @@ def _c03(dump_path, fname, tier):
     out = {"name": fname, "func": f["name"], "status": "ok", "queries": 0, "discharged": 0,
            "undecided": [], "candidates": [], "paths": 0, "steps": 0, "witnesses": [],
            "pins": 0, "methods": {}}
-    fa = FuncAnalysis(prog, f, honest=False,
+    fa = FuncAnalysis(prog, f, honest=False, max_array_len=tp["max_array_len"],
                       limits=Limits(solver_ms=tp["feas_ms"], explore_s=tp["explore_s"],
                                     max_depth=tp["max_depth"])).explore()
     if fa.unsupported:
